@@ -1,5 +1,6 @@
 """C07 - numeric expressions evaluate to their arithmetic value."""
 import ast
+import re
 
 from engine.index import AnalysisError
 from engine.helpers import (parent_map, stmt_of, resolver, facts_at, lit_cmp, describe_facts, unparse, walk_no_nested, returns, deref, reaching_def,
@@ -259,7 +260,11 @@ def c07_2(ctx):
             if isinstance(n, ast.Assign) and isinstance(n.targets[0], ast.Name) and isinstance(n.value, ast.Call) \
                     and isinstance(n.value.func, ast.Attribute) and n.value.func.attr == '_compute':
                 defs.setdefault(n.targets[0].id, set()).add(unparse(n.value.func.value))
-        a0, a1 = unparse(c.args[0]), unparse(c.args[1])
+        def peel(e):
+            while isinstance(e, ast.Call) and isinstance(e.func, ast.Name) and e.func.id in ('int', 'float', 'Fraction', 'Decimal') and len(e.args) == 1 and not e.keywords:
+                e = e.args[0]
+            return unparse(e)
+        a0, a1 = peel(c.args[0]), peel(c.args[1])
         ok = defs.get(a0) == {'self.left_child'} and defs.get(a1) == {'self.right_child'}
         ctx.check(ok, 'apply:operands-in-order', comp.site(c), 'binary operators are applied as op(value(left child), value(right child))',
                   f'{unparse(c)} with {a0} from {sorted(defs.get(a0, []))}, {a1} from {sorted(defs.get(a1, []))}')
@@ -283,24 +288,29 @@ def c07_3(ctx):
     comp = ctx.repo.func(EX + '.ExpressionNode._compute')
     res = resolver(ctx, comp, inline=False)
     conv = {}
+    # operand results: names bound to the value of a child
+    operand_names = {n.targets[0].id for n in ast.walk(comp.node) if isinstance(n, ast.Assign) and isinstance(n.targets[0], ast.Name)
+                     and isinstance(n.value, ast.Call) and isinstance(n.value.func, ast.Attribute) and n.value.func.attr == '_compute'
+                     and unparse(n.value.func.value) in ('self.left_child', 'self.right_child')}
+    pm_ = parent_map(comp.node)
     for n in ast.walk(comp.node):
-        if isinstance(n, ast.Assign) and isinstance(n.targets[0], ast.Name) and isinstance(n.value, ast.Call) \
-                and isinstance(n.value.func, ast.Name) and n.value.func.id in ('int', 'float', 'Fraction', 'Decimal') and len(n.value.args) == 1 \
-                and unparse(n.value.args[0]) == n.targets[0].id:
-            # the token types under which the conversion happens: the test of the innermost enclosing `if` branch taken
-            from engine.helpers import membership_view
-            pm_ = parent_map(comp.node)
-            toks = set()
-            cur = n
-            while cur is not None:
-                par = pm_.get(id(cur))
-                if isinstance(par, ast.If) and any(cur is b for b in par.body):
-                    mv = membership_view(par.test)
-                    if mv is not None and 'token_type' in mv[0]:
-                        toks |= {unparse(e).split('.')[-1] for e in mv[1]}
-                        break
-                cur = par
-            conv.setdefault(n.value.func.id, set()).update(toks)
+        if not (isinstance(n, ast.Call) and isinstance(n.func, ast.Name) and n.func.id in ('int', 'float', 'Fraction', 'Decimal') and len(n.args) == 1
+                and isinstance(n.args[0], ast.Name) and n.args[0].id in operand_names):
+            continue
+        par = pm_.get(id(n))
+        rebinds = isinstance(par, ast.Assign) and isinstance(par.targets[0], ast.Name) and par.targets[0].id == n.args[0].id
+        applied = isinstance(par, ast.Call) and n in par.args and isinstance(par.func, ast.Name) \
+            and unparse(deref(ctx, comp, par.func, par)) == 'ExpressionNode._operations[self.token_type]'
+        if not (rebinds or applied):
+            continue
+        # the token types under which the conversion happens: the tightest `token_type is one of ...` fact at the conversion
+        best = None
+        for cl in facts_at(ctx, comp, n, res):
+            if all(l[0] == 'eq' and 'self.token_type' in repr(l) for l in cl):
+                toks = {t for l in cl for t in re.findall(r'TokenType\.(T_\w+)', repr(l))}
+                if best is None or len(toks) < len(best):
+                    best = toks
+        conv.setdefault(n.func.id, set()).update(best or set())
     want_int = {'T_AND', 'T_OR', 'T_XOR', 'T_LEFT_SHIFT', 'T_RIGHT_SHIFT'}
     ctx.check(conv.get('int', set()) >= want_int, 'value:int-operands-for-bitwise', comp.site(),
               'operands of & | ^ << >> are converted with int()', f'int() applied under tokens {sorted(conv.get("int", []))}')
@@ -373,10 +383,12 @@ def c07_4(ctx):
             gap = gap and order and init0
             for n in walk_no_nested(lex.node):
                 if isinstance(n, ast.If) and body_only_aborts(n.body) and not any(x is n for x in ast.walk(lp)):
-                    for s2 in ast.walk(n.test):
-                        if isinstance(s2, ast.Subscript) and unparse(s2.value) == src and isinstance(s2.slice, ast.Slice) \
-                                and s2.slice.upper is None and s2.slice.lower is not None and unparse(s2.slice.lower) == pos:
-                            trail = True
+                    for sub in ast.walk(n.test):
+                        d = deref(ctx, lex, sub, n) if isinstance(sub, ast.Name) else sub
+                        for s2 in ast.walk(d):
+                            if isinstance(s2, ast.Subscript) and unparse(s2.value) == src and isinstance(s2.slice, ast.Slice) \
+                                    and s2.slice.upper is None and s2.slice.lower is not None and unparse(s2.slice.lower) == pos:
+                                trail = True
             # the position must also be advanced when `pos` assignment precedes gap detection order-insensitively
             ok = gap and adv and trail
             ctx.check(ok or not skipped, 'lexer:total', lex.site(c),
